@@ -1,83 +1,240 @@
 """C20 - theme stack.  TLC enumerates / we sample push/pop/use_theme histories; each is run on a
-real Console; the observed get_style() table after every call goes back to TLC (Trace_ThemeStack)."""
+real Console (or a bare ThemeStack); the observed lookup table after every call goes back to TLC
+(Trace_ThemeStack).  Second part: Theme -> .config -> Theme.from_file / Theme.read (Trace_ThemeConfig).
+
+Dimensions the generators vary (audit-2): theme values given as Style objects or definition strings, null
+styles and link styles as theme entries, names with upper case / dots / underscores / digits, names that are
+also (multi-word, link) style definitions, definitions no theme defines, Theme() constructor forms, the
+console's default theme, omitted `inherit` arguments, re-used ThemeContext objects, Theme objects shared by
+pushes and by two consoles run interleaved, bare ThemeStack histories, lookups before the first push, sparse
+lookups, get_style(name, default=...)."""
 import io
+import json
+import os
+import random
+import shutil
+import tempfile
 
 from engine import tlc
 from engine.harness import Check
 
-NAMES = {"n1": "vn1", "n2": "vn2", "d1": "repr.number", "q1": "#102030"}
+NAMES = {
+    "n1": "vn1", "n2": "vn2",
+    "n3": "Vn_3.X9-z",                           # upper case, underscore, dot, digit, hyphen: names are compared as given
+    "d1": "repr.number", "d2": "rule.line",      # names of DEFAULT_STYLES
+    "q1": "#102030",                             # a name that is also a valid style definition: the theme entry must win
+    "q2": "not bold link http://e.x/a=b;c#d",    # several words, `not`, a link - as a theme name and as a definition
+    "u1": "bold italic red on color(7)",         # a definition no theme ever defines
+}
+ORDER = ["n1", "n2", "n3", "d1", "d2", "q1", "q2", "u1"]
+DEFINABLE = ["n1", "n2", "n3", "d1", "d2", "q1", "q2"]
+SID_DEFS = {"s0": ["none", ""], "s1": ["bold red", "b RED"], "s2": ["underline blue", "u  blue"],
+            "s3": ["italic link https://example.org/x?y=1;z#f"]}
+# constants of the M1/M2 model (four names are enough there; the trace judge knows all eight)
 CFG_CONST = 'CONSTANTS\n  Names = {"n1", "n2", "d1", "q1"}\n  DefaultNames = {"d1"}\n  Sids = {"s1", "s2"}\n'
+BAD_DEFAULT = "vn9 !!"
 
 
-def _env():
-    from rich.console import Console
-    from rich.style import Style
-    from rich.theme import Theme
-    from rich.default_styles import DEFAULT_STYLES
-    from rich import errors
-    sid = {"s1": Style(bold=True, color="red"), "s2": Style(underline=True, color="blue")}
-    return Console, Style, Theme, DEFAULT_STYLES, errors, sid
-
-
-def make_theme(th, env):
-    Console, Style, Theme, DEFAULT_STYLES, errors, sid = env
-    styles = th["styles"] or {}
-    return Theme({NAMES[n]: sid[v] for n, v in styles.items()}, inherit=th["ti"])
-
-
-def observe(console, env):
-    Console, Style, Theme, DEFAULT_STYLES, errors, sid = env
-    obs = {}
-    for n, real in NAMES.items():
-        try:
-            st = console.get_style(real)
-        except errors.MissingStyle:
-            obs[n] = "P"
-            continue
-        except Exception as e:  # undocumented
-            obs[n] = "exc:" + type(e).__name__
-            continue
-        if st == sid["s1"]:
-            obs[n] = "s1"
-        elif st == sid["s2"]:
-            obs[n] = "s2"
-        elif real in DEFAULT_STYLES and st == DEFAULT_STYLES[real]:
-            obs[n] = "D"
-        else:
+class Env:
+    def __init__(self):
+        from rich.console import Console
+        from rich.style import Style
+        from rich.theme import Theme, ThemeStack, ThemeStackError
+        from rich.default_styles import DEFAULT_STYLES
+        from rich import errors
+        self.Console, self.Style, self.Theme, self.ThemeStack, self.ThemeStackError = Console, Style, Theme, ThemeStack, ThemeStackError
+        self.errors = errors
+        self.DEFAULT_STYLES = DEFAULT_STYLES
+        self.sid = {"s0": Style(), "s1": Style(bold=True, color="red"), "s2": Style(underline=True, color="blue"),
+                    "s3": Style(italic=True, link="https://example.org/x?y=1;z#f")}
+        self.X = Style(frame=True, color="magenta")          # a Style object given as `default=`
+        from rich import themes
+        self.themes_default = lambda: themes.DEFAULT
+        # what the default names meant before any theme was built (a tree that lets themes write into
+        # DEFAULT_STYLES must not move the reference)
+        self.dflt = {n: DEFAULT_STYLES.get(NAMES[n]) for n in ("d1", "d2")}
+        self.parsed = {}
+        for n, real in NAMES.items():
             try:
-                obs[n] = "P" if st == Style.parse(real) else "other"
-            except Exception:
-                obs[n] = "other"
-    return obs
+                self.parsed[n] = Style.parse(real)
+            except errors.StyleSyntaxError:
+                self.parsed[n] = None
+        # the projection below is only lexical if the reference styles are pairwise distinct
+        for n in NAMES:
+            ref = list(self.sid.values()) + [v for v in (self.dflt.get(n), self.parsed[n]) if v is not None]
+            for i in range(len(ref)):
+                for j in range(i):
+                    if ref[i] == ref[j]:
+                        raise RuntimeError("c20: reference styles for %s are not distinct in this tree" % n)
 
 
-def execute(base, ops, env):
-    """Run one history on a real Console, return the trace record."""
-    Console, Style, Theme, DEFAULT_STYLES, errors, sid = env
-    from rich.theme import ThemeStackError
-    console = Console(file=io.StringIO(), theme=make_theme(base, env))
-    events = []
-    ctxs = []
-    for op in ops:
+def make_theme(th, env, cache=None):
+    """Build the Theme a spec describes: dict(styles={name: sid}, ti, forms={name: "obj"|"str"|"str2"}, ctor)."""
+    key = json.dumps(th, sort_keys=True)
+    if cache is not None and key in cache:
+        return cache[key]
+    forms = th.get("forms") or {}
+    styles = {}
+    for n, v in (th["styles"] or {}).items():
+        f = forms.get(n, "obj")
+        if f == "obj":
+            styles[NAMES[n]] = env.sid[v]
+        elif f == "new":
+            styles[NAMES[n]] = env.Style.parse(SID_DEFS[v][0]) + env.Style()     # an equal style object of its own
+        else:
+            defs = SID_DEFS[v]
+            styles[NAMES[n]] = defs[(1 if f == "str2" else 0) % len(defs)]
+    ctor, ti = th.get("ctor", "kw"), th["ti"]
+    if ctor == "none" and not styles:
+        t = env.Theme(inherit=ti) if not ti else (env.Theme() if th.get("bare") else env.Theme(None, inherit=True))
+    elif ctor == "omit" and ti:
+        t = env.Theme(styles)
+    elif ctor == "pos":
+        t = env.Theme(styles, ti)
+    else:
+        t = env.Theme(styles, inherit=ti)
+    if cache is not None:
+        cache[key] = t
+    return t
+
+
+def token(n, out, env):
+    """Lexical projection of the outcome of one lookup of name n: a style id, "D" (the DEFAULT_STYLES entry),
+    "P" (what parsing the name as a definition gives: an equal style, or MissingStyle when it does not parse)."""
+    if out[0] == "exc":
+        return "exc:" + out[1]
+    if out[0] == "absent":
+        return "P"
+    parsed = env.parsed[n]
+    if out[0] == "missing":
+        return "P" if parsed is None else "missing"
+    st = out[1]
+    if not isinstance(st, env.Style):
+        return "nonstyle"
+    for k, v in env.sid.items():
+        if st == v:
+            return k
+    if env.dflt.get(n) is not None and st == env.dflt[n]:
+        return "D"
+    if parsed is not None and st == parsed:
+        return "P"
+    return "other"
+
+
+def lookup(target, via, real, env, **kw):
+    try:
+        if via == "stack":
+            st = target.get(real)
+            return ("absent",) if st is None else ("style", st)      # no theme in effect defines it
+        return ("style", target.get_style(real, **kw))
+    except env.errors.MissingStyle:
+        return ("missing",)
+    except Exception as e:  # undocumented
+        return ("exc", type(e).__name__)
+
+
+def observe(target, via, look, env):
+    """look = None (all names, plain lookups) or dict(names=[...], dflt=[[n, dk, dn], ...], dfirst=bool)."""
+    obs = {n: "-" for n in ORDER}
+    obsd = {n: dict(tn="-", dk="none", dn="n1", tm="-") for n in ORDER}
+    names = ORDER if look is None else look["names"]
+    dq = [] if look is None or via == "stack" else look.get("dflt", [])
+
+    def plain():
+        for n in names:
+            obs[n] = token(n, lookup(target, via, NAMES[n], env), env)
+
+    def withdefault():
+        for n, dk, dn in dq:
+            if dk == "name":
+                out = lookup(target, via, NAMES[n], env, default=NAMES[dn])
+                tm = token(dn, out, env)
+            elif dk == "style":
+                out = lookup(target, via, NAMES[n], env, default=env.X)
+                tm = "X" if out[0] == "style" and isinstance(out[1], env.Style) and out[1] == env.X else "other"
+            elif dk == "bad":
+                out = lookup(target, via, NAMES[n], env, default=BAD_DEFAULT)
+                tm = "P" if out[0] == "missing" else "other"
+            else:
+                out = lookup(target, via, NAMES[n], env, default=None)
+                tm = "-"
+            obsd[n] = dict(tn=token(n, out, env), dk=dk, dn=dn, tm=tm)
+
+    if look is not None and look.get("dfirst"):
+        withdefault(); plain()
+    else:
+        plain(); withdefault()
+    return obs, obsd
+
+
+class Runner:
+    """One history on one real Console / ThemeStack, stepped from outside so that two can be interleaved."""
+
+    def __init__(self, case, env, cache):
+        self.case, self.env, self.cache = case, env, cache
+        self.via = case.get("via", "console")
+        self.looks = case.get("looks")
+        self.i = 0
+        self.events, self.ctxs, self.made = [], [], {}
+        self.target = self.new_target()
+        first = self.target if case.get("pre") else self.new_target()
+        obs, obsd = observe(first, self.via, self.looks[0] if self.looks else None, env)
+        self.init = dict(obs=obs, obsd=obsd)
+
+    def new_target(self):
+        env, base = self.env, self.case["base"]
+        if self.via == "stack":
+            return env.ThemeStack(env.themes_default() if base.get("default") else make_theme(base, env, self.cache))
+        if base.get("default"):
+            return env.Console(file=io.StringIO()) if base.get("omit") else env.Console(file=io.StringIO(), theme=None)
+        return env.Console(file=io.StringIO(), theme=make_theme(base, env, self.cache))
+
+    def more(self):
+        return self.i < len(self.case["ops"])
+
+    def step(self):
+        env, op, t = self.env, self.case["ops"][self.i], self.target
+        self.i += 1
         e = dict(op)
         e["err"] = "none"
         try:
             k = op["k"]
             if k == "push":
-                console.push_theme(make_theme(op["th"], env), inherit=op["inh"])
+                th = make_theme(op["th"], env, self.cache)
+                if self.via == "stack":
+                    if op.get("inhd") and op["inh"]:
+                        t.push_theme(th)
+                    elif op.get("pos"):
+                        t.push_theme(th, op["inh"])
+                    else:
+                        t.push_theme(th, inherit=op["inh"])
+                elif op.get("inhd") and op["inh"]:
+                    t.push_theme(th)
+                else:
+                    t.push_theme(th, inherit=op["inh"])
             elif k in ("pop", "popbase"):
                 e["k"] = "pop"
                 try:
-                    console.pop_theme()
-                except ThemeStackError:
+                    t.pop_theme()
+                except env.ThemeStackError:
                     e["err"] = "ThemeStackError"
             elif k == "enter":
-                c = console.use_theme(make_theme(op["th"], env), inherit=op["inh"])
+                e["reused"] = False
+                c = self.made.get(op.get("ctx")) if op.get("ctx") is not None else None
+                if c is not None:
+                    e["reused"] = True
+                else:
+                    th = make_theme(op["th"], env, self.cache)
+                    c = t.use_theme(th) if (op.get("inhd") and op["inh"]) else t.use_theme(th, inherit=op["inh"])
+                    self.made[self.i - 1] = c
+                self.ctxs.append(None)          # replaced when __enter__ came back
                 c.__enter__()
-                ctxs.append(c)
+                self.ctxs[-1] = c
             elif k == "exit":
-                c = ctxs.pop()
-                if op.get("exc"):
+                c = self.ctxs.pop()
+                if c is None:                    # the enter of this block raised: there is no block to leave
+                    e["k"] = "noop"
+                elif op.get("exc"):
                     try:
                         raise KeyError("body")
                     except KeyError as ex:
@@ -88,26 +245,76 @@ def execute(base, ops, env):
                     e["propagated"] = True
         except Exception as ex:
             e["err"] = "exc:" + type(ex).__name__
-        e["obs"] = observe(console, env)
-        events.append(e)
-    c0 = Console(file=io.StringIO(), theme=make_theme(base, env))
-    return dict(base=base, init=dict(obs=observe(c0, env)), events=events)
+        e["obs"], e["obsd"] = observe(t, self.via, self.looks[self.i] if self.looks else None, env)
+        self.events.append(e)
+
+    def record(self):
+        return dict(base=self.case["base"], init=self.init, events=self.events)
 
 
+def execute_group(group, env):
+    """A group is one history, or two histories run interleaved (sched) on two consoles; with share the
+    Theme objects of equal specs are one object (pushed several times, base of both consoles)."""
+    cache = {} if group.get("share") else None
+    runners = [Runner(c, env, cache) for c in group["cases"]]
+    for i in group.get("sched", []):
+        if runners[i].more():
+            runners[i].step()
+    for r in runners:
+        while r.more():
+            r.step()
+    return [r.record() for r in runners]
+
+
+# ---- generators ---------------------------------------------------------------------------------------
 THEME_POOL = [
     dict(styles={"n1": "s1"}, ti=False), dict(styles={"n1": "s2", "n2": "s1"}, ti=False),
     dict(styles={"d1": "s2"}, ti=False), dict(styles={"n2": "s2"}, ti=True),
     dict(styles={"q1": "s1"}, ti=False), dict(styles={}, ti=False), dict(styles={}, ti=True),
     dict(styles={"n1": "s1", "n2": "s2", "d1": "s1", "q1": "s2"}, ti=False),
     dict(styles={"q1": "s2", "d1": "s1"}, ti=True),
+    # audit-2: null-style and link-style entries, the other names
+    dict(styles={"n1": "s0"}, ti=False), dict(styles={"d1": "s0", "q1": "s0"}, ti=False),
+    dict(styles={"n3": "s1"}, ti=False), dict(styles={"n3": "s3", "q2": "s1"}, ti=True),
+    dict(styles={"q2": "s0", "d2": "s3"}, ti=False), dict(styles={"n1": "s3", "d2": "s2"}, ti=True),
 ]
 
 
-def random_history(rng, n):
-    ops, depth, blocks = [], 1, []
+def dress(rng, th):
+    """choose how the theme is written down (does not change what it means)"""
+    th = dict(styles=dict(th["styles"]), ti=th["ti"])
+    th["forms"] = {n: rng.choice(["obj", "obj", "str", "str2", "new"]) for n in th["styles"]}
+    if not th["styles"]:
+        th["ctor"] = rng.choice(["kw", "none", "none", "pos"])
+        if th["ctor"] == "none" and th["ti"]:
+            th["bare"] = rng.random() < 0.5
+    else:
+        th["ctor"] = rng.choice(["kw", "kw", "pos"] + (["omit"] if th["ti"] else []))
+    return th
+
+
+def random_theme(rng, pool=None):
+    if pool and rng.random() < 0.7:
+        return rng.choice(pool)              # the same spec again: with share it is the same Theme OBJECT
+    if rng.random() < 0.6:
+        return dress(rng, rng.choice(THEME_POOL))
+    k = rng.choice([0, 1, 1, 2, 2, 3, 5, 7])
+    return dress(rng, dict(styles={n: rng.choice(["s0", "s1", "s2", "s3"]) for n in rng.sample(DEFINABLE, k)}, ti=rng.random() < 0.4))
+
+
+def random_base(rng, pool=None):
+    if pool and rng.random() < 0.3:
+        return rng.choice(pool)              # a Theme object that is a console's base and is pushed as well
+    if rng.random() < 0.25:
+        return dict(styles={}, ti=True, default=True, omit=rng.random() < 0.5)   # Console() / Console(theme=None)
+    return random_theme(rng)
+
+
+def random_history(rng, n, via="console", pool=None):
+    ops, depth, blocks, enters = [], 1, [], []
     for _ in range(n):
         floor = (blocks[-1] + 1) if blocks else 1
-        choices = ["push", "enter"]
+        choices = ["push", "enter"] if via == "console" else ["push", "push"]
         if depth > floor:
             choices += ["pop", "pop"]
         if blocks and depth == blocks[-1] + 1:
@@ -116,7 +323,18 @@ def random_history(rng, n):
             choices += ["popbase"]
         k = rng.choice(choices)
         if k in ("push", "enter"):
-            ops.append(dict(k=k, th=rng.choice(THEME_POOL), inh=rng.random() < 0.5))
+            op = dict(k=k, th=random_theme(rng, pool), inh=rng.random() < 0.5)
+            if k == "enter" and enters and rng.random() < 0.25:
+                j = rng.choice(enters)                      # the same ThemeContext object entered again
+                op = dict(k=k, th=ops[j]["th"], inh=ops[j]["inh"], ctx=j)
+            else:
+                if op["inh"] and rng.random() < 0.35:
+                    op["inhd"] = True                       # leave `inherit` to its documented default
+                if via == "stack" and rng.random() < 0.4:
+                    op["pos"] = True
+                if k == "enter":
+                    enters.append(len(ops))
+            ops.append(op)
             if k == "enter":
                 blocks.append(depth)
             depth += 1
@@ -132,23 +350,114 @@ def random_history(rng, n):
     return ops
 
 
+def random_looks(rng, nsteps, via):
+    """which names are looked up after which step, and how (None = every name, plainly)"""
+    r = rng.random()
+    if r < 0.35:
+        return None
+    looks = []
+    p = rng.choice([0.3, 0.6, 1.0])
+    for _ in range(nsteps + 1):
+        names = [n for n in ORDER if rng.random() < p]
+        dflt = []
+        if via == "console":
+            for n in ORDER:
+                if rng.random() < 0.35:
+                    dflt.append([n, rng.choice(["name", "name", "style", "bad", "none"]), rng.choice(ORDER)])
+        looks.append(dict(names=names, dflt=dflt, dfirst=rng.random() < 0.5))
+    return looks
+
+
+def random_case(rng, pool=None):
+    via = "stack" if rng.random() < 0.2 else "console"
+    ops = random_history(rng, rng.randint(1, 14), via, pool)
+    return dict(base=random_base(rng, pool), ops=ops, via=via, pre=rng.random() < 0.5, looks=random_looks(rng, len(ops), via))
+
+
+def random_group(rng):
+    share = rng.random() < 0.65
+    # a small pool of theme specs per group: with share each is ONE Theme object, pushed several times at different
+    # depths, over different underlying stacks, with both inherit values, by push_theme / use_theme / ThemeStack
+    pool = [random_theme(rng) for _ in range(rng.randint(2, 4))] if share else None
+    a = random_case(rng, pool)
+    if share and rng.random() < 0.6:
+        b = random_case(rng, pool)
+        if rng.random() < 0.6:
+            b["base"] = a["base"]                       # one Theme object is the base of both consoles
+        sched = [0] * len(a["ops"]) + [1] * len(b["ops"])
+        rng.shuffle(sched)
+        return dict(cases=[a, b], sched=sched, share=True)
+    return dict(cases=[a], sched=[], share=share)
+
+
 def norm_theme(th):
     st = th.get("styles")
     return dict(styles=dict(st) if isinstance(st, dict) else {}, ti=th["ti"])
 
 
+def relabel(rng, base, ops):
+    """The model is symmetric in names of one kind and in style ids: rename those of a TLC-generated history."""
+    ns = rng.sample(["n1", "n2", "n3"], 2)
+    nm = {"n1": ns[0], "n2": ns[1], "d1": rng.choice(["d1", "d2"]), "q1": rng.choice(["q1", "q2"])}
+    ss = rng.sample(["s0", "s1", "s2", "s3"], 2)
+    sm = {"s1": ss[0], "s2": ss[1]}
+
+    memo = {}
+
+    def th(t):
+        key = json.dumps(t, sort_keys=True)      # one way of writing it per theme: equal themes of the history are one object under share
+        if key not in memo:
+            memo[key] = dress(rng, dict(styles={nm[n]: sm[v] for n, v in t["styles"].items()}, ti=t["ti"]))
+        return memo[key]
+    out = []
+    for o in ops:
+        o = dict(o)
+        if "th" in o:
+            o["th"] = th(o["th"])
+            if o["inh"] and rng.random() < 0.25:
+                o["inhd"] = True
+        out.append(o)
+    return th(base), out
+
+
+def op_sig(o):
+    if not o:
+        return "op=None inherit=None"
+    return "op=%s inherit=%s" % (o.get("k"), o.get("inh"))
+
+
 def run(chk: Check):
-    env = _env()
-    chk.rule = ("histories of push_theme/pop_theme/use_theme(enter/exit, with exception) enumerated by TLC "
-                "(all histories of GenDepth ops over 6 themes x inherit) plus seeded random histories of "
-                "up to 14 ops over 9 themes; a case is a distinct (base theme, op list); non-trivial = at least "
-                "one push with a pop/exit after it or a non-inheriting push")
-    chk.trusted = ["drivers/c20.py:observe (maps a Style to its id by ==)"]
-    chk.assumptions = ["use_theme blocks are well nested (pushes inside a block are popped before it exits)"]
-    cases = []
+    env = Env()
+    chk.rule = ("histories of push_theme/pop_theme/use_theme(enter/exit, with exception) enumerated by TLC (all histories of "
+                "GenDepth ops over 6 themes x inherit, names and style ids renamed at random within their kind) plus seeded "
+                "random histories of up to 14 ops over 15 listed + random themes (entries: null / attribute+colour / link "
+                "styles, given as Style objects or definition strings), run on a Console (own theme or the default theme) or "
+                "a bare ThemeStack, alone or two interleaved on consoles sharing their Theme objects; after every call a "
+                "chosen set of 8 names (custom, upper case/dotted, two DEFAULT_STYLES names, two names that are definitions, "
+                "one definition no theme defines) is looked up plainly and/or with default=name/Style/invalid/None; "
+                "a case is a distinct (base theme, op list, lookups); non-trivial = at least one push with a pop/exit after it "
+                "or a non-inheriting push.  Config part: a case is a theme (0..300 names, styles over 13 attributes x colour "
+                "kinds x links, built by constructor / parse / + / copy / update_link / without_color / from_color / chain "
+                "or given as definition strings) written with .config and read with from_file / read, inherit on or off")
+    chk.trusted = ["drivers/c20.py:token (maps the outcome of a lookup to a style id / D / P by ==)",
+                   "drivers/c20.py:proj_style (Style -> attribute/colour/link record via the public getters)"]
+    chk.assumptions = ["use_theme blocks are well nested (pushes inside a block are popped before it exits)",
+                       "get_style(name, default=...) is judged where the statement speaks: the name is defined by a theme in "
+                       "effect, or parses as a definition; what an undefined, unparsable name gives with a default is DRIFT only",
+                       "a ThemeContext entered a second time may refuse (raise without pushing); if it does not raise it must push",
+                       "config round trip: links without whitespace, names without configparser syntax "
+                       "(':', '=', leading '#', ';', '[', outer blanks) - see TODO(audit-2) in the driver"]
+    groups = []
     if chk.replay_only:
         c = chk.replay_only["case"]
-        cases.append((c["base"], c["ops"]))
+        if c.get("kind") == "config":
+            config_roundtrip(chk, env, only=c)
+            _disarm_watchdog()
+            return
+        if "group" in c:
+            groups.append(c["group"])
+        else:                                                # replay files written before audit-2
+            groups.append(dict(cases=[dict(base=c["base"], ops=c["ops"])], sched=[], share=False))
     else:
         # M1: the design (collapse dictionaries at push) agrees with the declarative rule
         r, cov, missing = tlc.model_check("MC_ThemeStack", require_actions=["Push", "Pop", "PopBase", "UseEnter", "UseExit"])
@@ -164,33 +473,79 @@ def run(chk: Check):
         base = dict(styles={"n1": "s1"}, ti=True)
         for b in behs:
             ops = [dict(o, th=norm_theme(o["th"])) if "th" in o else dict(o) for o in b["beh"]]
-            cases.append((base, ops))
+            if chk.rng.random() < 0.5:
+                groups.append(dict(cases=[dict(base=base, ops=ops)], sched=[], share=False))      # as TLC wrote it
+            else:
+                b2, ops2 = relabel(chk.rng, base, ops)
+                groups.append(dict(cases=[dict(base=b2, ops=ops2, pre=chk.rng.random() < 0.5)], sched=[], share=chk.rng.random() < 0.5))
         chk.notes["tlc_generated_histories"] = len(behs)
         if not behs:
             raise tlc.TLCFailure("no behaviours generated")
-        for i in range(chk.pick(1500, 20000)):
-            cases.append((chk.rng.choice(THEME_POOL), random_history(chk.rng, chk.rng.randint(1, 14))))
-    recs = []
-    for base, ops in cases:
-        recs.append(execute(base, ops, env))
-        nontrivial = any(o["k"] in ("pop", "exit") for o in ops) or any(o.get("inh") is False for o in ops)
-        chk.case((base, ops), nontrivial)
+        for i in range(chk.pick(2500, 30000)):
+            groups.append(random_group(chk.rng))
+    recs, owner = [], []
+    feats = {}
+    for g in groups:
+        out = execute_group(g, env)
+        for j, rec in enumerate(out):
+            recs.append(rec)
+            owner.append((g, j))
+            case = g["cases"][j]
+            ops = case["ops"]
+            nontrivial = any(o["k"] in ("pop", "exit") for o in ops) or any(o.get("inh") is False for o in ops)
+            chk.case((case["base"], ops, case.get("via"), case.get("pre"), case.get("looks")), nontrivial)
+            for f, on in (("via=stack", case.get("via") == "stack"), ("two-consoles", len(g["cases"]) == 2), ("shared-theme-objects", bool(g.get("share"))),
+                          ("default-base", bool(case["base"].get("default"))), ("lookups-before-first-op", bool(case.get("pre"))),
+                          ("sparse/default lookups", case.get("looks") is not None), ("context-reused", any("ctx" in o for o in ops)),
+                          ("inherit-omitted", any(o.get("inhd") for o in ops)),
+                          ("string-values", any(f2 != "obj" for o in ops if "th" in o for f2 in (o["th"].get("forms") or {}).values()))):
+                feats[f] = feats.get(f, 0) + (1 if on else 0)
+    chk.notes["history_feature_counts"] = feats
     verdicts, st = tlc.judge("Trace_ThemeStack", recs)
     chk.add_tlc(st, "M3")
     chk.traces += len(recs)
-    for (base, ops), rec, v in zip(cases, recs, verdicts):
+    for (g, j), rec, v in zip(owner, recs, verdicts):
         if v != "ok":
+            case = g["cases"][j]
+            ops = case["ops"]
             clause = v.split(": ")[-1]
             step = v.split(" ")[1] if v.startswith("step") else "0"
             k = step.isdigit() and int(step) >= 1 and int(step) <= len(ops) and ops[int(step) - 1] or {}
-            sig = "%s op=%s inherit=%s" % (clause, k.get("k"), k.get("inh"))
-            chk.reject(sig, v, dict(base=base, ops=ops, observed=rec["events"]))
-    chk.sample(dict(base=cases[0][0], ops=cases[0][1], observed_tables=[e["obs"] for e in recs[0]["events"]]))
-    chk.sample(dict(base=cases[-1][0], ops=cases[-1][1]))
-    config_roundtrip(chk, env)
+            sig = "%s %s" % (clause, op_sig(k))
+            if case.get("via") == "stack":
+                sig += " via=stack"
+            chk.reject(sig, v, dict(base=case["base"], ops=ops, group=g, which=j, observed=rec["events"], init=rec["init"]))
+    g0, gl = groups[0], groups[-1]
+    chk.sample(dict(base=g0["cases"][0]["base"], ops=g0["cases"][0]["ops"], observed_tables=[e["obs"] for e in recs[0]["events"]]))
+    chk.sample(dict(group=gl))
+    if not chk.replay_only:
+        config_roundtrip(chk, env)
+    _disarm_watchdog()
 
 
+def _disarm_watchdog():
+    """engine/watch.py leaves its repeating ITIMER_VIRTUAL armed when the check exits; the interpreter resets the
+    SIGVTALRM handler to the default early in its shutdown, so a tick that falls into the shutdown kills the process
+    (exit status 128+26 after the result line was printed - seen when the run's CPU time ends near a multiple of the
+    20 s tick, which the thorough tier of this driver does reproducibly).  No call into Rich follows run()."""
+    import signal
+    signal.setitimer(signal.ITIMER_VIRTUAL, 0)
+
+
+# ---- config round trip --------------------------------------------------------------------------------
 ATTRS = ["bold", "dim", "italic", "underline", "blink", "blink2", "reverse", "conceal", "strike", "underline2", "frame", "encircle", "overline"]
+ABBREV = {"bold": "b", "dim": "d", "italic": "i", "underline": "u", "reverse": "r", "conceal": "c", "strike": "s", "underline2": "uu", "overline": "o"}
+LINKS = ["https://example.org/a?b=c", "foo", "#top", ";x", "a=b;c:d#e", "x:y=z", "mailto:a@b.c", "[x]", "bold", "http://x.y/?q=1#f", "on", "a\\b",
+         # percent signs: configparser would interpolate them (fixed in /repo a6e8678: interpolation=None)
+         "file:///tmp/R%20ich", "http://x/%20y?q=50%", "%(x)s", "100%%"]
+# Style names with upper-case letters, and names that differ only in case, are generated: configparser would lower-case
+# option names (fixed in /repo 25fc381: optionxform = str).
+# TODO(audit-2): names using configparser syntax (':' / '=' inside, leading '#' ';' '[', outer blanks, empty) do not
+#   survive the round trip (witness /tmp/audit-2/C20/witness_keys.py); no small repair - not generated.
+NAME_FORMS = ["st%d.x-%d", "my_style_%d_%d", "a.b.c%d.%d", "with space %d %d", "9lives%d-%d", "x%d!%d", "markdown.h%d%d",
+              "Warn%d.Level-%d", "UPPER_%d_%d"]
+FIXED_NAMES = ["repr.number", "rule.line", "bold", "red", "none", "on", "link", "not", "default", "styles", "x", "a#b", "a;b",
+               "Warning", "warning", "WARNING", "DEFAULT", "Repr.Number", "X"]
 
 
 def proj_color(c):
@@ -209,7 +564,9 @@ def proj_style(st):
 
 
 def random_style(rng, Style):
-    kw = {a: rng.choice([None, None, None, True, False]) for a in ATTRS}
+    dens = rng.choice([0.1, 0.4, 0.4, 1.0])
+    kw = {a: (rng.choice([True, False]) if rng.random() < dens else None) for a in ATTRS}
+
     def col():
         r = rng.random()
         if r < 0.3:
@@ -223,38 +580,114 @@ def random_style(rng, Style):
         if r < 0.9:
             return "#%02x%02x%02x" % (rng.randrange(256), rng.randrange(256), rng.randrange(256))
         return "rgb(%d,%d,%d)" % (rng.randrange(256), rng.randrange(256), rng.randrange(256))
-    link = rng.choice([None, None, "https://example.org/a?b=c", "foo"])
+    link = rng.choice(LINKS) if rng.random() < 0.4 else None
     return Style(color=col(), bgcolor=col(), link=link, **kw)
 
 
-def config_roundtrip(chk, env):
-    """Theme -> config text -> Theme.from_file; TLC compares the projected styles name by name."""
-    Console, Style, Theme, DEFAULT_STYLES, errors, sid = env
+def respell(rng, text):
+    """another documented spelling of the same definition (abbreviations, upper case, blanks)"""
+    words, out, keep = text.split(), [], False
+    for w in words:
+        if keep:
+            out.append(w); keep = False
+            continue
+        if w in ("link", "not"):
+            keep = True
+        elif w in ABBREV and rng.random() < 0.5:
+            w = ABBREV[w]
+        if rng.random() < 0.3 and w != "none":
+            w = w.upper()
+        out.append(w)
+    return rng.choice([" ", " ", "  ", "\t"]).join(out)
+
+
+def derived_style(rng, Style):
+    """a style of the C06 space reached by one of its construction routes (value may be a definition string)"""
+    a, b = random_style(rng, Style), random_style(rng, Style)
+    route = rng.choice(["ctor", "ctor", "ctor", "parse", "add", "copy", "ulink", "nocolor", "fromcolor", "chain", "null", "str", "str"])
+    if route == "parse":
+        return route, Style.parse(str(a))
+    if route == "add":
+        return route, a + b
+    if route == "copy":
+        str(a)
+        return route, a.copy()
+    if route == "ulink":
+        str(a)
+        return route, a.update_link(rng.choice(LINKS + [None]))
+    if route == "nocolor":
+        str(a)
+        return route, a.without_color
+    if route == "fromcolor":
+        return route, Style.from_color(a.color, a.bgcolor)
+    if route == "chain":
+        return route, rng.choice([Style.chain(a, b), Style.combine([a, b])])
+    if route == "null":
+        return route, rng.choice([Style.null(), Style(), "none", ""])
+    if route == "str":
+        return route, respell(rng, str(a))
+    return route, a
+
+
+def gen_config_case(seed, i, Style):
+    rng = random.Random(seed * 1000003 + i * 7919 + 20)
+    r = rng.random()
+    n = 0 if r < 0.06 else (rng.randint(150, 300) if r < 0.09 else rng.randint(1, 6))
+    styles, routes = {}, {}
+    for j in range(n):
+        name = rng.choice(FIXED_NAMES) if rng.random() < 0.15 else rng.choice(NAME_FORMS) % (i, j)
+        routes[name], styles[name] = derived_style(rng, Style)
+    how = dict(inherit=rng.random() < 0.3, ctor_omit=False, via=rng.choice(["file", "file", "file-source", "read"]),
+               rinh=rng.choice([False, False, True, "omit"]))
+    if how["inherit"] and rng.random() < 0.5:
+        how["ctor_omit"] = True
+    return styles, routes, how
+
+
+def config_roundtrip(chk, env, only=None):
+    """Theme -> config text -> Theme.from_file / Theme.read; TLC compares the projected styles name by name."""
+    Style, Theme = env.Style, env.Theme
     recs, cases = [], []
-    if chk.replay_only:
-        return
-    for i in range(chk.pick(400, 5000)):
-        n = chk.rng.randint(1, 5)
-        styles = {"st%d.x-%d" % (i, j): random_style(chk.rng, Style) for j in range(n)}
-        inherit = chk.rng.random() < 0.3
-        rec = dict(names=sorted(styles) if not inherit else [], exc="none", before=[], after=[], namesAfter=[])
-        try:
-            th = Theme(styles, inherit=inherit)
-            back = Theme.from_file(io.StringIO(th.config), inherit=False)
-            names = sorted(th.styles)
-            rec["names"] = names
-            rec["namesAfter"] = sorted(back.styles)
-            rec["before"] = [proj_style(th.styles[k]) for k in names]
-            rec["after"] = [proj_style(back.styles[k]) if k in back.styles else proj_style(Style()) for k in names]
-        except Exception as ex:
-            rec["exc"] = type(ex).__name__
-        recs.append(rec)
-        cases.append({k: str(v) for k, v in styles.items()})
+    tmp = tempfile.mkdtemp(prefix="c20-", dir="/tmp")
+    defaults = sorted(env.DEFAULT_STYLES)
+    try:
+        todo = [(only["seed"], only["i"])] if only else [(chk.seed, i) for i in range(chk.pick(600, 6000))]
+        for seed, i in todo:
+            styles, routes, how = gen_config_case(seed, i, Style)
+            rinh = how["rinh"]
+            rec = dict(names=[], exc="none", before=[], after=[], namesAfter=[], extra=defaults if rinh is not False else [])
+            try:
+                th = Theme(styles) if how["ctor_omit"] else Theme(styles, inherit=how["inherit"])
+                rec["names"] = names = sorted(th.styles)
+                rec["before"] = [proj_style(th.styles[k]) for k in names]
+                text = th.config
+                kw = {} if rinh == "omit" else dict(inherit=rinh)
+                if how["via"] == "read":
+                    path = os.path.join(tmp, "t%d.ini" % i)
+                    with open(path, "wt") as f:
+                        f.write(text)
+                    back = Theme.read(path, **kw)
+                elif how["via"] == "file-source":
+                    back = Theme.from_file(io.StringIO(text), source="theme-%d.ini" % i, **kw)
+                else:
+                    back = Theme.from_file(io.StringIO(text), **kw)
+                rec["namesAfter"] = sorted(back.styles)
+                rec["after"] = [proj_style(back.styles[k]) if k in back.styles else proj_style(Style()) for k in names]
+            except Exception as ex:
+                rec["exc"] = type(ex).__name__
+                rec["before"], rec["after"] = [], []
+            recs.append(rec)
+            cases.append(dict(kind="config", seed=seed, i=i, how=how, routes=routes, styles={k: str(v) for k, v in styles.items()}))
+    finally:
+        shutil.rmtree(tmp, ignore_errors=True)
     verdicts, st = tlc.judge("Trace_ThemeConfig", recs)
     chk.add_tlc(st, "M3-config-roundtrip")
     chk.traces += len(recs)
     for case, v in zip(cases, verdicts):
-        chk.case(("config", case), True)
+        chk.case(("config", case["styles"], case["how"]), True)
         if v != "ok":
-            chk.reject(v, v, dict(kind="config", styles=case))
-    chk.sample(dict(kind="config-roundtrip", styles=cases[-1]))
+            sig = v
+            if v in ("config-names-differ",) or v.startswith("config-raises"):
+                sig = "%s via=%s inherit=%s" % (v, "read" if case["how"]["via"] == "read" else "file", case["how"]["rinh"])
+            chk.reject(sig, v, case)
+    chk.sample(dict(kind="config-roundtrip", case=cases[-1] if len(cases[-1]["styles"]) < 10 else dict(cases[-1], styles="(%d styles)" % len(cases[-1]["styles"]))))
